@@ -318,6 +318,12 @@ loop:
 		}
 	}
 
+	// Cancellation is final: a stream that ended because the query was
+	// cancelled must not be presented as a (partial) successful result.
+	if err := ctx.Err(); err != nil {
+		return newErrResult(ret, err)
+	}
+
 	// For range Query we expect always a Matrix value type.
 	if q.t == RangeQuery {
 		resultMatrix := make(promql.Matrix, 0, len(series))
